@@ -105,7 +105,8 @@ def gen_s1(rng, tb=False):
         if tb and rng.random() < 0.25:
             fen = rng.choice(list(TB_FENS) + ["rnbqkbnr/pppppppp/8/8/8/8/PPPPPPPP/RNBQKBNR w KQkq - 0 1"] * 4)
             if fen in TB_FENS and rng.random() < 0.15:
-                ops.append("UPDTBA %d | %s" % (TB_FENS[fen], fen))       # generation aborted after 2 ms
+                ops.append("TTCLEAR")                                      # no tablebase resident before
+                ops.append("UPDTBA %d | %s" % (TB_FENS[fen], fen))       # generation aborted as soon as it has started
                 ops.append("DUMPF")
                 ops.append(rng.choice(["UCI setoption name Clear Hash", "TTCLEAR", "UCI ucinewgame"]))   # probing a partial table is F4
             else:
@@ -121,7 +122,7 @@ def gen_s1(rng, tb=False):
 # S2: in-process sessions with real searches
 def gen_s2(rng, positions):
     ops = ["RESET", "UCI setoption name Hash value %d" % rng.choice([1, 1, 2, 16]), "DUMPF"]
-    hash_big = ops[1].endswith("16")
+    hash_big = ops[1].endswith("16")       # follows the Hash option: on-demand tablebases need a table of >= 7 MB
     for _ in range(rng.randint(4, 14)):
         r = rng.random()
         if r < 0.55:
@@ -138,7 +139,8 @@ def gen_s2(rng, positions):
             elif kind == "nodes":
                 go, mode, wait, lim, inf, maxt = "nodes %d" % rng.choice([1, 50, 300, 1500]), "wait", 0, 1, 0, -1
             elif kind == "infinite":
-                go, mode, wait, lim, inf, maxt = "infinite", "stop", (400 if tbk >= 0 else rng.randint(5, 40)), 0, 1, -1
+                # with a tablebase root the stop waits (up to 120 s) for the generation to finish instead of a fixed time
+                go, mode, wait, lim, inf, maxt = ("infinite", "tbstop", 60, 0, 1, -1) if tbk >= 0 else ("infinite", "stop", rng.randint(5, 40), 0, 1, -1)
             else:
                 t = rng.choice([5, 20, 40])
                 go, mode, wait, lim, inf, maxt = "movetime %d" % t, "wait", 0, 0, 0, t
@@ -148,7 +150,9 @@ def gen_s2(rng, positions):
         elif r < 0.76:
             ops.append("UCI ucinewgame")
         elif r < 0.82:
-            ops.append("UCI setoption name Hash value %d" % rng.choice([1, 2, 16] if hash_big else [1, 2, 4]))
+            h = rng.choice([1, 2, 16, 16])
+            hash_big = h == 16
+            ops.append("UCI setoption name Hash value %d" % h)
         else:
             name = rng.choice(["Contempt", "UCI_AnalyseMode", "AnalyzeContempt", "AnalysisAgeHash", "AutoContempt", "MultiPV", "UseNullMove"])
             dflt, alts = S.OPTIONS[name]
@@ -183,19 +187,22 @@ def lines_agree(h, d):
     return True
 
 
-def run_ops(har, drv, variant, seqs, timeout=600):
-    """Run op sequences (list of op lists) through harness and driver; return list of
-    (seq index, first differing line index, harness line, driver line)."""
+class HarnessFailure(Exception):
+    pass
+
+
+def _run_ops_once(har, drv, variant, seqs, timeout):
     stream = "\n".join("\n".join(s) for s in seqs) + "\n"
     rc1, o1, e1 = sh([har, "ops"], input=stream, timeout=timeout)
     rc2, o2, e2 = sh([drv] + [str(x) for x in variant], input=stream, timeout=timeout)
     l1 = [l for l in o1.split("\n") if l and not l.startswith("info ")]
     l2 = [l for l in o2.split("\n") if l]
-    # outputs per sequence
     counts = [sum(1 for op in s if op in ("DUMP", "DUMPF") or op.startswith("PRB ")) for s in seqs]
-    bad = []
     if rc1 != 0 or rc2 != 0 or len(l1) != sum(counts) or len(l2) != sum(counts):
-        return [(-1, -1, "rc=%d lines=%d stderr=%s" % (rc1, len(l1), e1[-300:]), "rc=%d lines=%d stderr=%s" % (rc2, len(l2), e2[-300:]))], l1, l2
+        who = "harness" if (rc1 != 0 or len(l1) != sum(counts)) else "model driver"
+        return None, {"who": who, "harness_rc": rc1, "harness_lines": len(l1), "driver_rc": rc2, "driver_lines": len(l2),
+                      "expected_lines": sum(counts), "harness_stderr": e1[-1500:], "driver_stderr": e2[-1500:]}, l1, l2
+    bad = []
     pos = 0
     for si, c in enumerate(counts):
         for j in range(c):
@@ -203,7 +210,52 @@ def run_ops(har, drv, variant, seqs, timeout=600):
                 bad.append((si, j, l1[pos + j], l2[pos + j]))
                 break
         pos += c
-    return bad, l1, l2
+    return bad, None, l1, l2
+
+
+def run_ops(har, drv, variant, seqs, timeout=600, stats=None):
+    """Run op sequences (list of op lists) through harness and driver.  Returns
+    (disagreements, l1, l2); disagreements = list of (seq index, output line index, harness line,
+    model line), each CONFIRMED by running that sequence alone again (a difference that does
+    not show again is counted in stats["unreproducible"], not reported).  A crash / timeout /
+    missing output of either program is located by running the sequences one by one and
+    returned as (seq index, -1, "CRASH ...", details)."""
+    stats = stats if stats is not None else {}
+    bad, fail, l1, l2 = _run_ops_once(har, drv, variant, seqs, timeout)
+    if fail is not None:
+        if len(seqs) == 1:
+            return [(0, -1, "CRASH of the %s (rc=%s, %s of %s output lines)" % (fail["who"], fail["harness_rc"] if fail["who"] == "harness" else fail["driver_rc"],
+                                                                               fail["harness_lines"] if fail["who"] == "harness" else fail["driver_lines"], fail["expected_lines"]), fail)], l1, l2
+        out = []
+        for si, sq in enumerate(seqs):
+            b, f, _, _ = _run_ops_once(har, drv, variant, [sq], min(timeout, 300))
+            if f is not None:
+                # once more: a crash that does not repeat is still a crash of the batch run, keep its stderr
+                b2, f2, _, _ = _run_ops_once(har, drv, variant, [sq], min(timeout, 300))
+                f["repeats_alone"] = f2 is not None
+                out.append((si, -1, "CRASH of the %s" % f["who"], f))
+            elif b:
+                out.append((si,) + b[0][1:])
+        if not out:
+            stats["unreproducible_batch_failures"] = stats.get("unreproducible_batch_failures", 0) + 1
+            stats.setdefault("unreproducible_details", []).append(fail)
+        return out, l1, l2
+    confirmed = []
+    for (si, j, a, b) in bad:
+        if len(seqs) == 1:
+            confirmed.append((si, j, a, b))
+            continue
+        again = 0
+        for _ in range(2):
+            b1, f1, _, _ = _run_ops_once(har, drv, variant, [seqs[si]], min(timeout, 300))
+            if f1 is not None or b1:
+                again += 1
+        if again:
+            confirmed.append((si, j, a, b))
+        else:
+            stats["unreproducible"] = stats.get("unreproducible", 0) + 1
+            stats.setdefault("unreproducible_details", []).append({"ops": seqs[si], "harness": a, "model": b})
+    return confirmed, l1, l2
 
 
 def shrink_ops(har, drv, variant, ops):
@@ -576,11 +628,20 @@ def run(ctx):
         return [seqs[i:i + size] for i in range(0, len(seqs), size)]
     t1 = time.time()
     chunks = chunked(s1, NCPU) + chunked(s2, NCPU)
+    ops_stats = {}
     with ThreadPoolExecutor(max_workers=NCPU) as ex:
-        res = list(ex.map(lambda ch: run_ops(har, drv, variant, ch, timeout=ctx.scale(600, 3600)), chunks))
+        res = list(ex.map(lambda ch: run_ops(har, drv, variant, ch, timeout=ctx.scale(600, 3600), stats=ops_stats), chunks))
+    crashes = []
     for ch, (bad, l1, l2) in zip(chunks, res):
         for (si, j, a, b) in bad:
-            disagreements.append((ch[si] if si >= 0 else ch[0], j, a, b))
+            if j == -1:
+                crashes.append((ch[si], a, b))
+            else:
+                disagreements.append((ch[si], j, a, b))
+    ctx.notes["correspondence_unreproducible"] = {k: v for k, v in ops_stats.items()}
+    if ops_stats:
+        ctx.log("correspondence: differences that did not show again when the sequence was run alone: %s" %
+                {k: v for k, v in ops_stats.items() if not k.endswith("details")})
     for seqs, tag in ((s1, "s1"), (s2, "s2")):
         for ops in seqs:
             ctx.evaluated()
@@ -596,7 +657,9 @@ def run(ctx):
     ctx.sample({"s1_ops": s1[len(corpus_ops)][:12], "s2_ops": s2[0][:6]})
     ctx.log("correspondence: %d synthetic + %d in-process op sequences, %d disagreements (%.1fs)" %
             (len(s1), len(s2), len(disagreements), time.time() - t1))
-    corr_broken = bool(disagreements) or not api_f5_as_model
+    for ops, what_c, det in crashes[:3]:
+        ctx.log("HARNESS/DRIVER FAILURE: %s\n  ops: %s\n  stderr: %s" % (what_c, ops[:40], (det.get("harness_stderr") or det.get("driver_stderr") or "")[-600:]))
+    corr_broken = bool(disagreements) or bool(crashes) or not api_f5_as_model
     # (5) end-to-end pairs = tie for the frame assumption + finder
     plan, reported, unexpected = end_to_end(ctx, exe, positions, variant)
     # replay the Coq witnesses on the implementation (is the finding still real?)
@@ -684,10 +747,14 @@ def run(ctx):
             bad, l1, l2 = run_ops(har, drv, variant, [small], timeout=120)
             replay["disagreement"] = {"ops": small, "original_len": len(ops), "harness": [x[2] for x in bad][:1], "model": [x[3] for x in bad][:1],
                                       "count": len(disagreements)}
+        if crashes:
+            replay["crash"] = [{"ops": o, "what": w, "details": d} for o, w, d in crashes[:3]]
         if not api_f5_as_model:
             replay["api_level_f5"] = f5
         what_b = ("theorem(s) in %s no longer check" % PROP_FILE) if proof_broken else \
-                 "correspondence between the real tables / Clear Hash listener and the model is broken"
+                 ("the correspondence harness or the model driver CRASHED / timed out on an op sequence (see replay.crash: stderr, exit status)"
+                  if crashes and not disagreements else
+                  "correspondence between the real tables / Clear Hash listener and the model is broken")
         ctx.violation(what_b + "; the end-to-end finder found no session on which Clear Hash differs from a fresh start beyond the known findings",
                       replay, no_failing_input=True)
 
